@@ -304,6 +304,13 @@ def cases(draw, n_classes=3):
                 kind, data = draw(mutate(seed_bytes))
                 calls.append({"kind": "de", "hex": data.hex(), "mode": draw(st.booleans()), "faults": draw(faults),
                               "input_kind": kind})
+            # fault positions: spread the drawn numbers (Hypothesis favours 0, 1 and repeats) with a digest of the call
+            import hashlib
+            import json
+            for call in calls:
+                dig = hashlib.blake2b(json.dumps([call.get("obj"), call.get("hex"), call["faults"], c["path"]],
+                                                 sort_keys=True, default=str).encode(), digest_size=12).digest()
+                call["faults"] = [int.from_bytes(dig[4 * j:4 * j + 4], "big") % (10 ** 6) for j in range(len(call["faults"]))]
             items.append({"cls": c["path"], "dir": c["dir"], "calls": calls})
     return {"tree": tree, "items": items}
 
